@@ -330,3 +330,76 @@ func VH_C09_json_parser() {
 	vrt.Assert(got[0].Fingerprint == fingerprint(want), "series-id-of-the-final-label-set")
 	vrt.Reach("end")
 }
+
+// vwBatches sends the given batches one channel message each.
+type vwBatches struct{ batches [][]shared.LogEntry }
+
+func (s vwBatches) IsMatrix() bool { return false }
+func (s vwBatches) Process(ctx *shared.PlannerContext, in chan []shared.LogEntry) (chan []shared.LogEntry, error) {
+	ch := make(chan []shared.LogEntry)
+	go func() {
+		defer close(ch)
+		for _, b := range s.batches {
+			ch <- b
+		}
+	}()
+	return ch, nil
+}
+
+// VH_C09_batches_kept: stages that re-pack entries (line_format, label filter, line filter, comparison) over
+// an upstream delivering 2-3 channel messages of 1-2 entries: a consumer that keeps every received message
+// and reads them after the stage has finished finds every entry once, in order, with its own (formatted)
+// line - a later message never overwrites an earlier one.
+func VH_C09_batches_kept() {
+	vrt.CheckLeaks()
+	vrt.Unwind(400)
+	nb := vrt.Len("messages", 2, 3)
+	var batches [][]shared.LogEntry
+	var want []string
+	k := 0
+	for b := 0; b < nb; b++ {
+		var batch []shared.LogEntry
+		for e, ne := 0, vrt.Len("entries-in-message", 1, 2); e < ne; e++ {
+			msg := "m" + string(rune('a'+k))
+			batch = append(batch, shared.LogEntry{Message: msg, Labels: map[string]string{"lvl": "i"}, Value: 1, TimestampNS: int64(k)})
+			k++
+		}
+		batches = append(batches, batch)
+	}
+	src := vwBatches{batches}
+	var p shared.RequestProcessor
+	stage := vrt.Choice("stage", 4)
+	switch stage {
+	case 0:
+		p = &LineFormatterPlanner{GenericPlanner: GenericPlanner{src}, Template: "{{.lvl}}|{{._entry}}"}
+	case 1:
+		p = &LineFilterPlanner{GenericPlanner: GenericPlanner{src}, Op: "|=", Val: "m"}
+	case 2:
+		p = &ComparisonPlanner{GenericPlanner: GenericPlanner{src}, Op: ">", Val: 0}
+	default:
+		p = &DropPlanner{GenericPlanner: GenericPlanner{src}, Labels: []string{"nope"}, Values: []string{""}}
+	}
+	for i := 0; i < k; i++ {
+		m := "m" + string(rune('a'+i))
+		if stage == 0 {
+			m = "i|" + m
+		}
+		want = append(want, m)
+	}
+	out, err := p.Process(&shared.PlannerContext{}, nil)
+	vrt.Assert(err == nil, "stage-starts")
+	var kept [][]shared.LogEntry
+	for batch := range out {
+		kept = append(kept, batch) // keep the message, look at it later
+	}
+	i := 0
+	for _, batch := range kept {
+		for _, e := range batch {
+			vrt.Assert(i < len(want), "no-extra-entry")
+			vrt.Assert(e.Message == want[i] && e.TimestampNS == int64(i), "every-entry-once-in-order-with-its-own-line")
+			i++
+		}
+	}
+	vrt.Assert(i == len(want), "no-entry-lost")
+	vrt.Reach("end")
+}
